@@ -60,7 +60,7 @@ def check(ctx):
             cases.append({"id": len(cases), "script": s, "n": n, "maxretry": r, "proto": "tcp", "big": si % 4 == 0})
     for si, s in enumerate(scripts):
         if si % (3 if thorough else 10) == 0:
-            cases.append({"id": len(cases), "script": s, "n": n, "maxretry": 1, "proto": "udp", "big": False})
+            cases.append({"id": len(cases), "script": s, "n": n, "maxretry": 1, "proto": "udp", "big": si % 2 == 0})
     # the sink stops reading, the producer runs into full socket buffers in the middle of a multi-kilobyte message, the sink
     # then resets the connection while staying reachable, or reads on (Producer.tla: SinkStall, SinkRst, SinkResume)
     for r in (0, 1, 2):
@@ -168,6 +168,7 @@ def check(ctx):
                           % (r, c.get("stall") or c["script"], max([e.get("m", 0) for e in r1b.get("events", [])] + [c["n"]]), end.get("delivered"), (" garbage lines: %s" % r1b["garbage"]) if r1b.get("garbage") else ""),
                           {"case": c, "result": r1b}, key="tcp:" + ("garbage" if r1b.get("garbage") else "order-or-gap"))
             break
+    two_producers(ctx, drv, d)
     kafka(ctx, thorough)
     nsq(ctx, thorough)
     nats(ctx, thorough)
@@ -190,6 +191,28 @@ CONSTANTS N = 5
 INVARIANTS InOrderOnce HandedExactlyOnce
 CHECK_DEADLOCK FALSE
 """
+
+
+def two_producers(ctx, drv, d):
+    """one producer per protocol, each with its own configured sink (the public way: NewProducer, configuration file, Run)"""
+    out = os.path.join(d, "two.json")
+    rc, log, to = ctx.go_run(drv, "TestVerifTwoProducers", env={"VERIF_OUT": out, "VERIF_TWO": 1}, timeout=120)
+    ctx.count(["two-producers"])
+    if rc != 0 or to or not os.path.exists(out):
+        if ("panic" in log or "fatal error" in log) and "producer/" in log:
+            ctx.violation("two raw-socket producers side by side: the process died: " + (re.search(r"(panic:[^\n]*|fatal error:[^\n]*)", log) or re.search("(.*)", log[-200:])).group(1), {"log": log[-2000:]}, key="two:crash")
+            return
+        raise vlib.Infra("two-producers driver failed:\n" + log[-1500:])
+    r = json.load(open(out))
+    for k in (0, 1):
+        want = ["producer %d message %d" % (k, m) for m in range(1, 21)]
+        got = r.get("sink%d" % k) or []
+        if got != want or r.get("hung"):
+            ctx.violation("two raw-socket producers with different configured sinks: the sink of producer %d received %d lines (%s ...), "
+                          "expected its own 20 messages in order%s" % (k, len(got), got[:3], "; a producer stopped taking messages" if r.get("hung") else ""),
+                          {"result": {x: (y[:5] if isinstance(y, list) else y) for x, y in r.items()}}, key="two:sinks")
+            return
+    ctx.traces_validated += 1
 
 
 NSQ_CFG = """SPECIFICATION Spec
